@@ -1633,6 +1633,23 @@ class WriteAheadLogCommitRecord(Version):
 
         """
 
+        """
+
+        12.) The default page cache size, incremental vacuum mode, application id and SQLite version number can be
+        changed by ordinary transactions (PRAGMA default_cache_size, incremental_vacuum, application_id, or simply a
+        different library version writing the file).  They carry no structural information and are accepted.
+
+        """
+
+        for accepted_field in [
+            "default_page_cache_size",
+            "incremental_vacuum_mode",
+            "application_id",
+            "sqlite_version_number",
+        ]:
+            if accepted_field in database_header_differences:
+                del database_header_differences[accepted_field]
+
         # Throw an exception if any database header differences still exist
         if database_header_differences:
             log_message = (
